@@ -7,7 +7,7 @@
     durations are unbounded integers: the Go code agrees with the model as long
     as |t - epoch| fits a time.Duration (about 292 years). *)
 From Coq Require Import List NArith ZArith.
-From MM Require Import Model.Window Proofs.WindowProofs.
+From MM Require Import Model.Window Proofs.WindowProofs Generated.C33.
 Import ListNotations.
 Local Open Scope Z_scope.
 
@@ -76,3 +76,20 @@ Print Assumptions C33_in_window_iff_for_repair_shape.
 Theorem C33_normalisation : forall c, 6 <= cycle c -> 0 < window c -> 0 <= tol c -> valid (normalize c).
 Proof. exact normalize_valid. Qed.
 Print Assumptions C33_normalisation.
+
+(** The expressions of window.go the model follows, regenerated from the
+    source on this run: normalisation divisor, XOR seed, offset modulo
+    (cycle - window), floor division in cycleStart, NextWindow switching only
+    strictly after the end, the active test start-tol <= now < end+tol of the
+    returned window, IsInWindow = that flag, PreviousWindow. *)
+Theorem C33_source_facts :
+  gen_c33_normalise_divisor = norm_divisor /\
+  gen_c33_seed_is_xor_of_halves = true /\
+  gen_c33_offset_is_seed_mod_cycle_minus_window = true /\
+  gen_c33_cycle_start_floor_division = true /\
+  gen_c33_next_switches_strictly_after_end = true /\
+  gen_c33_active_is_safe_start_le_now_lt_safe_end = true /\
+  gen_c33_in_window_is_active_flag_of_next_window = true /\
+  gen_c33_previous_switches_before_start = true.
+Proof. repeat split; reflexivity. Qed.
+Print Assumptions C33_source_facts.
